@@ -28,7 +28,7 @@ TInit ==
   /\ cfg = [flavour |-> "fixed", thr |-> [kind |-> "count", weight |-> 1, p |-> 0, q |-> 0], period |-> [k |-> "h", v |-> 1],
             executor |-> "none", dep |-> NoDep]
   /\ props = <<>> /\ voters = [a \in Addr |-> -1] /\ gtotal = 0 /\ startVoters = [a \in Addr |-> -1] /\ dirty = FALSE
-  /\ bal = [a \in Addr \cup {"ms"} |-> 0] /\ qx = [thrq |-> [kind |-> "none", weight |-> 0, p |-> 0, q |-> 0, total |-> 0], lvoters |-> {}, voteq |-> {}] /\ now = [h |-> 0, t |-> 0] /\ out = <<>>
+  /\ bal = [a \in Addr \cup {"ms"} |-> 0] /\ qx = [thrq |-> [kind |-> "none", weight |-> 0, p |-> 0, q |-> 0, total |-> 0], lvoters |-> {}, voteq |-> {}, dtokfail |-> FALSE] /\ now = [h |-> 0, t |-> 0] /\ out = <<>>
   /\ snap = <<>> /\ execd = <<>> /\ closedH = <<>> /\ held = <<>> /\ rejEarly = <<>> /\ sameBlk = <<>>
   /\ ev = [act |-> "init", ok |-> TRUE, anom |-> <<>>]
 
@@ -51,7 +51,7 @@ TNext ==
      /\ voters' = V
      /\ gtotal' = e.obs.gtotal
      /\ bal' = [a \in Addr \cup {"ms"} |-> e.obs.bal[a]]
-     /\ qx' = [thrq |-> e.obs.thrq, lvoters |-> ToSet(e.obs.lvoters), voteq |-> ToSet(e.obs.voteq)]
+     /\ qx' = [thrq |-> e.obs.thrq, lvoters |-> ToSet(e.obs.lvoters), voteq |-> ToSet(e.obs.voteq), dtokfail |-> e.obs.dtokfail]
      /\ now' = e.now
      /\ out' = e.out
      /\ startVoters' = IF reset THEN V ELSE IF e.act = "advance" /\ e.args.dh > 0 THEN V ELSE startVoters
